@@ -199,7 +199,7 @@ def _handle_generic_types(
     if incoming_origin is Annotated:
         return _compare_single_annotated_type(incoming_type, required_type, memo)
     if required_origin is Annotated:
-        return _compare_single_annotated_type(required_type, incoming_type, memo)
+        return is_type_compatible(incoming_type, get_args(required_type)[0], memo)
 
     # Handle generic types
     if incoming_origin and required_origin:
